@@ -199,6 +199,54 @@ def check(run, model, tier):
                 es = kw.get('end_state')
                 ok = isinstance(es, ast.Call) and dotted(es.func) in (recv + '.temp.fun', recv + '.state.fun') and any(signal_const(x) == 'REFLECTION_SIGNAL' for x in ast.walk(es))
                 run.inst('TRACE.at-most-one', inner, 'start record ends in the reflected current state', ok, 'end_state is %s' % (norm(es) if es is not None else None), node=c, obligation=True)
+    # ---- who may put tuples into rtc.tuples that the hook scan *sees*: the scan takes the signal (and the hook flag) of the step from the tuples that are neither internal nor
+    # recall markers, so every other writer must write tuples the scan filters out.  Visible writers, confirmed by reading: spy_on (one tuple per offer of the dispatched
+    # event) and ActiveObject.hook_meta_signal (the un-wrapped top of an active object answering the dispatched event itself).
+    run.rule('TUPLES.writers', 'every writer of rtc.tuples other than the two offer writers writes a tuple the hook scan filters out (evaluated with the scan itself)')
+    VISIBLE_OK = {'_spy_on': 'spy_on: one tuple per offer of the dispatched event', 'hook_meta_signal': 'top of an active object answering the dispatched event itself'}
+    fac_t = facs.get('append_to_full_trace')
+    scan = [h_ for h_ in fac_t.nested.values() if h_ is not cg.factories[fac_t]] if fac_t is not None else []
+    n_w = 0
+    if len(scan) == 1:
+        import inspect as _insp
+        from sa import pureeval as _pe
+        # defaults of spy_tuple(...)
+        stf = model.func('hsm.spy_tuple') if hasattr(model, 'func') else None
+        defaults = {}
+        if stf is not None:
+            a_ = stf.node.args
+            for nm_, dv_ in zip([x.arg for x in a_.args][len(a_.args) - len(a_.defaults):], a_.defaults):
+                if isinstance(dv_, ast.Constant):
+                    defaults[nm_] = dv_.value
+        for f_ in model.all_funcs():
+            for c_ in shallow_calls(f_.node):
+                if not (isinstance(c_.func, ast.Attribute) and c_.func.attr in ('append', 'appendleft', 'extend', 'insert') and ring_of(c_.func.value) == 'rtc.tuples'):
+                    continue
+                n_w += 1
+                arg = c_.args[-1] if c_.args else None
+                rec = resolve_name(arg, local_defs(f_.node)) if arg is not None else None
+                fields = None
+                if isinstance(rec, ast.Call) and norm(rec.func) in ('spy_tuple', 'SpyTuple'):
+                    fields = dict(defaults) if norm(rec.func) == 'spy_tuple' else {}
+                    for kw in rec.keywords:
+                        fields[kw.arg] = kw.value.value if isinstance(kw.value, ast.Constant) else '<dyn>'
+                if fields is None or any(fields.get(k_) == '<dyn>' for k_ in ('internal', 'recall')):
+                    if f_.name in VISIBLE_OK:
+                        run.inst('TUPLES.writers', f_, 'offer writer %s (%s)' % (f_.name, VISIBLE_OK[f_.name]), True, nontrivial=False, node=c_)
+                        continue
+                    raise AnalysisError('%s writes a tuple into rtc.tuples whose internal/recall fields are not constants' % f_.qualname)
+                # is the tuple visible to the scan?  evaluate the scan on [an external offer of the event, this tuple] and on [the offer] alone
+                probe = _pe.Obj(signal='OTHER', datetime=99, **{k_: (v_ if v_ != '<dyn>' else False) for k_, v_ in fields.items() if k_ not in ('signal', 'datetime', 'state')})
+                offer = _pe.Obj(signal='EV', datetime=1, **SCAN_KINDS['ext'])
+                a1 = _pe.call(scan[0].node, [_pe.Obj(rtc=_pe.Obj(tuples=[offer]))])
+                a2 = _pe.call(scan[0].node, [_pe.Obj(rtc=_pe.Obj(tuples=[offer, probe]))])
+                visible = a1 != a2
+                ok = (not visible) or f_.name in VISIBLE_OK
+                run.inst('TUPLES.writers', f_, 'tuple written by %s is %s the hook scan' % (f_.qualname, 'visible to' if visible else 'filtered out by'), ok,
+                         '' if ok else ('%s appends a tuple to rtc.tuples that the hook scan of the trace takes for an offer of the dispatched event (it is neither internal nor a recall '
+                                        'marker): when it is written during a step - in an entry, exit or init action, or from another thread - the trace record of that step names this '
+                                        'tuple\'s signal instead of the signal that caused the transition, or the hook flag of the step is taken from it' % f_.qualname), node=c_, obligation=True)
+        run.floor('writers of rtc.tuples', n_w, 4)
     # ---- outcome visibility: dispatch
     hep = model.cls('HsmEventProcessor')
     disp = hep.methods.get('dispatch')
